@@ -221,6 +221,10 @@ def prog_edit(rng, text, codec):
     spots = [k for k in range(lo, len(lines)) if lines[k][:1] and not lines[k][:1].isspace()] + [len(lines) - (1 if lines and lines[-1] == "" else 0)]
     k = rng.choice(spots)
     new_line = ("# ed %s" % _word(rng, cls)) if rng.random() < 0.5 else ("ed_%d = '%s'" % (rng.randint(0, 99), _word(rng, cls)))
+    names = re.findall(r"^([a-z]\w*) = ", text, re.M)
+    if names and rng.random() < 0.25:
+        # a use of a module-level name, possibly above its assignment
+        new_line = "ed_%d = lambda: (%s, '%s')" % (rng.randint(0, 99), rng.choice(names), _word(rng, cls, 2))
     lines.insert(k, new_line)
     new = "\n".join(lines)
     try:
@@ -795,6 +799,36 @@ class ByteStoreEngine(Engine):
                                         return None
                             return got
 
+                        # ... and every line the request does not concern: lines that do not mention the name /
+                        # expression / import the refactoring works on must come through unchanged and in order
+                        # (blank lines aside, which refactorings re-space)
+                        key = None
+                        if st["kind"] in ("rename", "change_signature"):
+                            key = st["ident"]
+                        elif st["kind"] in ("extract_variable", "extract_method"):
+                            key = st["fragment"]
+                        elif st["kind"] == "organize" and st.get("action", "organize_imports") in ("organize_imports", "expand_star_imports"):
+                            key = "import"
+                        elif st["kind"] == "inline" and st["ident"] in ("const", "v", "summ", "k", "thing"):
+                            key = st["ident"]
+                        if key and not bad:
+                            for o in ops:
+                                was = cur.files.get(o[1])
+                                if not isinstance(was, bytes):
+                                    continue
+                                try:
+                                    old_text = was.decode(_effective_encoding(was)).replace("\r\n", "\n").replace("\r", "\n")
+                                except (UnicodeError, LookupError):
+                                    continue
+                                # (import statements may be rewritten by any refactoring that moves code)
+                                keep = [l for l in old_text.split("\n") if l.strip() and key not in l and "import" not in l]
+                                it = iter(o[2].split("\n"))
+                                lost = [l for l in keep if not any(l == m for m in it)]
+                                out.stats["probe_refactoring_line_preservation_checked"] += 1
+                                if lost:
+                                    bad = ("refactoring_damaged_unrelated_line", {"kind": st["kind"], "path": o[1], "line": lost[0][:120]})
+                                    sig["kind"] = st["kind"]
+                                    break
                         c0, c1 = _chars(cur.files), _chars(now)
                         if c0:
                             out.stats["probe_refactoring_edited_file_with_non_ascii"] += 1
